@@ -310,7 +310,7 @@ OBLIGATIONS = [
        sym=dict(n1=R(1, 3), a0=R(0, 3), a1=R(0, 3), a2=R(0, 3), n2=R(1, 2), b0=R(0, 3), b1=R(0, 3), b2=R(0, 3),
                 act1=B, isdir=B, preserve=B),
        shards=dict(act1=[True, False], isdir=[True, False], b2=[0], preserve=[True, False], n2=[1, 2]),
-       timeout=150, thorough_timeout=400,
+       timeout=400, thorough_timeout=600,
        functions=[SC._parse_cd_args, SC._SCPSink._recv_files, SC._SCPSink._recv_dir, SC._SCPSink._recv_file],
        bounds='two SCP records (D/C then C) with names of length <= 3 and <= 2 over {/ \\ . a}; destination exists as dir or not; preserve on/off'),
     Ob('sftp_get_names', sftp_get_names,
